@@ -316,7 +316,7 @@ def run(chk, facts):
     # "defined in a Mamba file ... exists in the emitted module": the module of a file is the one written to that file's own path
     from . import c13
     from .common import borrow
-    borrow(chk, facts, c13, ("R-C13-3|derive:", "R-C13-3|zip", "R-C13-3|extension", "R-C13-3|one-per-path:", "R-C13-3|sources-zip-paths", "R-C13-3|pipeline-order", "R-C13-3|anchor"),
+    borrow(chk, facts, c13, ("R-C13-3|derive:", "R-C13-3|zip", "R-C13-3|extension", "R-C13-3|one-per-path:", "R-C13-3|paired-lists-not-reordered", "R-C13-3|sources-zip-paths", "R-C13-3|pipeline-order", "R-C13-3|anchor"),
            {"R-C13-3": "the module emitted for a file is written to that file's own output path (pairing by position, shared with C13)"})
     chk.notes.append("C17: field-mapping tables of the definition arms, order-preservation of list derivations, operator/dunder round trip.")
 
